@@ -285,6 +285,17 @@ func checkC03(p *Prog, res *Result, tier string) {
 		}
 	}
 
+	// .. on the snapshot that was taken before the compaction floor was checked, also after a retry (C08-R2/R3)
+	{
+		sub8 := newResult("C08")
+		checkRangeReadsGuarded(p, r, p.compactKey(), sub8)
+		for _, o := range sub8.Obls {
+			if o.Rule == "C08-R3" || o.Rule == "C08-R2" {
+				res.add("C03-R4", o.Rule+" "+o.Construct, o.Status, o.Pos, o.Detail)
+			}
+		}
+	}
+
 	// ---- R6: the keys a read is addressed with ----
 	sub10 := p.subResult("C10", tier)
 	for _, o := range sub10.Obls {
